@@ -278,7 +278,7 @@ func TestC27(t *testing.T) {
 	r.Assume("harness/ref/rpackref is the reference queue model (statement + Velocity's handlers from memory); latitude: order among packs sharing an id on 1.20.3+ is free, a synthesised DECLINED of an auto-declined backend pack may or may not be written to the in-flight backend, a pack that is prompted instead of auto-declined after a decline only ends the comparison of that sequence (diagnostic)")
 	r.Assume("Remove on a pre-1.20.3 handler panics by design (explicit message) and is not part of the workload; accessors of pre-1.20.3 handlers are not compared")
 
-	nSeq := r.N(3000, 200000)
+	nSeq := r.N(3000, 600000)
 	rng := r.Rng("sequences")
 	deadlocks := map[string]int{}
 	skipped := map[string]int{}
